@@ -1,6 +1,6 @@
 From Coq Require Import ZArith List String Bool.
 Import ListNotations.
-From TD Require Import Lib.Sexp Model.C12_Chunk Model.C12_Sched Model.C12_Map.
+From TD Require Import Lib.Sexp Model.C12_Chunk Model.C12_Sched Model.C12_Map Model.C12_Meta.
 Open Scope string_scope.
 
 Definition enc_err (e : err) : sexp :=
@@ -133,6 +133,52 @@ Definition test_fn (noneset : list Z) (cwd : bool) : userfn := fun key item othe
                   + key_hash key + (if cwd then 10 else 0))%Z)
   end.
 
+(* ---------------------------------------------------------------- metadata of the result of apply *)
+Definition dec_meta (bs nm dv lk : sexp) : option meta :=
+  match dec_list dec_nat bs, dec_opt (dec_list dec_str) nm, dec_opt dec_nat dv, dec_bool lk with
+  | Some bs, Some nm, Some dv, Some lk => Some {| m_bs := bs; m_names := nm; m_dev := dv; m_locked := lk |}
+  | _, _, _, _ => None
+  end.
+Fixpoint dec_mtree (fuel : nat) (s : sexp) : option mtree :=
+  match fuel with
+  | 0 => None
+  | S fu =>
+      match s with
+      | SL [SA "mnode"; bs; nm; dv; lk; SL kids] =>
+          match dec_meta bs nm dv lk, dec_mforest fu kids with
+          | Some m, Some k => Some (MNode m k) | _, _ => None end
+      | _ => None
+      end
+  end
+with dec_mforest (fuel : nat) (l : list sexp) : option mforest :=
+  match fuel with
+  | 0 => None
+  | S fu =>
+      match l with
+      | [] => Some MNil
+      | SL [SA k; t] :: r =>
+          match dec_mtree fu t, dec_mforest fu r with
+          | Some t', Some r' => Some (MCons k t' r') | _, _ => None end
+      | _ => None
+      end
+  end.
+Fixpoint enc_mtree (t : mtree) : sexp :=
+  match t with
+  | MNode m kids => SL [SA "mnode"; enc_list enc_nat (m_bs m); enc_opt (enc_list enc_str) (m_names m);
+                        enc_opt enc_nat (m_dev m); enc_bool (m_locked m); SL (enc_mforest kids)]
+  end
+with enc_mforest (f : mforest) : list sexp :=
+  match f with MNil => [] | MCons k t r => SL [SA k; enc_mtree t] :: enc_mforest r end.
+Definition enc_mres (r : mres mtree) : sexp :=
+  match r with
+  | MOk t => SL [SA "ok"; enc_mtree t]
+  | MRaised MLocked => SL [SA "raise"; SA "locked"]
+  | MRaised MBatch => SL [SA "raise"; SA "batch"]
+  | MRaised MDevice => SL [SA "raise"; SA "device"]
+  | MRaised MTypeErr => SL [SA "raise"; SA "type"]
+  | MRaised MNames => SL [SA "raise"; SA "names"]
+  end.
+
 Definition dec_fe (s : sexp) : option (option bool) :=
   match s with SA "none" => Some None | SA "t" => Some (Some true) | SA "f" => Some (Some false) | _ => None end.
 
@@ -207,11 +253,35 @@ Definition dispatch (cmd : string) (args : list sexp) : option sexp :=
       | Some self, Some others, Some out, Some (o, d, con, cwd), Some ns =>
           Some (enc_outcome (st_apply (test_fn ns cwd) o d con self others out))
       | _, _, _, _, _ => None end
+  | "apply-meta", [form; self; out; bs; bsz; dev; dvo; names; ip; ck] =>
+      match dec_mtree 200 self, dec_opt (dec_mtree 200) out, dec_opt (dec_list dec_nat) bs, dec_bool bsz, dec_opt (dec_opt dec_nat) dev,
+            dec_bool dvo, dec_opt (dec_opt (dec_list dec_str)) names, dec_bool ip, dec_bool ck with
+      | Some self, Some out, Some bs, Some bsz, Some dev, Some dvo, Some names, Some ip, Some ck =>
+          let o := {| mo_bs := bs; mo_bs_size := bsz; mo_dev_obj := dvo; mo_inplace := ip; mo_checked := ck |} in
+          match form with
+          | SA "st" => Some (enc_mres (st_meta o dev names self out))
+          | SA "mt" => Some (enc_mres (mt_meta o dev names self out))
+          | _ => None
+          end
+      | _, _, _, _, _, _, _, _, _ => None end
   | "run-writes", [ops; d0] =>
       let dec_pv := dec_pair (dec_list dec_str) dec_Z in
       match dec_list dec_pv ops, dec_list dec_pv d0 with
       | Some ops, Some d0 =>
           Some (enc_list (enc_pair (enc_list enc_str) enc_Z) (run_writes ops d0))
+      | _, _ => None end
+  | "run-writes-f", [sub; comp] =>
+      (* tasks: ((path) (ok v)) | ((path) (fail e)) *)
+      let dec_t := dec_pair (dec_list dec_str)
+                     (fun x => match x with
+                               | SL [SA "ok"; SZ v] => Some (inl v)
+                               | SL [SA "fail"; e] => option_map inr (dec_nat e)
+                               | _ => None end) in
+      let enc_w := fun w => match w with
+                            | WDone d => SL [SA "done"; enc_list (enc_pair (enc_list enc_str) enc_Z) d]
+                            | WRaised e => SL [SA "raised"; enc_nat e] end in
+      match dec_list dec_t sub, dec_list dec_t comp with
+      | Some sub, Some comp => Some (SL [enc_w (run_writes_st sub []); enc_w (run_writes_mt sub comp [])])
       | _, _ => None end
   | "run-assign", [ws; storage] =>
       match dec_list (dec_pair dec_nat (dec_list dec_Z)) ws, dec_list dec_Z storage with
